@@ -1,0 +1,35 @@
+// Verification hook (only compiled with `--cfg peginator_verif`): a thread-local logical step
+// counter with an optional budget. Every built-in matcher, cursor advance, error record and
+// choice attempt calls `tick()`, so a parse that does not terminate exhausts any finite budget.
+
+use std::cell::Cell;
+
+thread_local! {
+    static STEPS: Cell<u64> = const { Cell::new(0) };
+    static BUDGET: Cell<u64> = const { Cell::new(u64::MAX) };
+}
+
+/// Reset the step counter and set the budget for the following parse on this thread.
+pub fn start(budget: u64) {
+    STEPS.with(|s| s.set(0));
+    BUDGET.with(|b| b.set(budget));
+}
+
+/// Number of steps since the last `start`.
+pub fn steps() -> u64 {
+    STEPS.with(|s| s.get())
+}
+
+#[inline]
+pub fn tick() {
+    let n = STEPS.with(|s| {
+        let n = s.get() + 1;
+        s.set(n);
+        n
+    });
+    if n > BUDGET.with(|b| b.get()) {
+        // disarm, so that unwinding code that ticks again does not panic twice
+        BUDGET.with(|b| b.set(u64::MAX));
+        panic!("peginator_verif: step budget exhausted after {n} steps");
+    }
+}
